@@ -1,6 +1,7 @@
 import GeoVerif.Model.Rhumb
 import GeoVerif.Proofs.Rhumb
 import GeoVerif.Gen.RhumbArea
+import GeoVerif.Proofs.RhumbCert
 /-!
 # C09 — rhumb lines: property theorems
 
@@ -139,5 +140,14 @@ they are validated through the quadrature oracle of the harness (`rhumb-area`, `
 theorem area_table_shape :
     Gen.RhumbArea.coeffs.length = Gen.RhumbArea.Lmax * (Gen.RhumbArea.Lmax + 1) / 2 ∧ Gen.RhumbArea.Lmax = 6 ∧
     Gen.RhumbArea.coeffs.all (fun q => q != 0) = true := by decide +kernel
+
+
+/-- **Table certificate** (re-checked against the source on every run): the 21 coefficients of `Rhumb::AreaCoeffs`
+satisfy the defining relation of the rhumb area series, `p′(β) = (1 − f)(sin ξ − sin χ)/cos φ` with
+`p(β) = Σ P_l cos 2lβ` (the integrand `Rhumb::qIntegrand` of the exact mode), modulo `n⁷`, where φ(β), χ(β), ξ(β) are the
+auxiliary-latitude series of AuxLatitude.cpp certified by C15 (`chi_ode`, `xi_ode`, `aux_revert`, …).  As the left side is a
+sine series without constant term this determines every `P_l` through `n⁶`: a single wrong entry (seeded C09A, C09C) is refuted. -/
+theorem rhumb_area_table : GeoVerif.Series.RhumbCert.checkRhumbArea = true :=
+  GeoVerif.Proofs.RhumbCert.rhumb_area_table
 
 end GeoVerif.Props.C09
